@@ -1282,7 +1282,12 @@ func (schema *Schema) visitNotOperation(settings *schemaValidationSettings, valu
 		if v == nil {
 			return foundUnresolvedRef(ref.Ref)
 		}
-		if err := v.visitJSON(settings, value); err == nil {
+		// the schema must NOT match: it contributes no defaults to the value
+		defaultsSet := settings.defaultsSet
+		settings.defaultsSet = nil
+		err := v.visitJSON(settings, value)
+		settings.defaultsSet = defaultsSet
+		if err == nil {
 			if settings.failfast {
 				return errSchema
 			}
